@@ -648,6 +648,18 @@ func intAbs(x int64) int64 {
 	return x
 }
 
+// applyIntCallback applies intCallback to x. When negates is true, meaning
+// that intCallback returns -x for negative x (unary minus, abs), and x is
+// math.MinInt64, the one int64 whose negation does not fit in an int64, it
+// instead applies floatCallback to x converted to a float64, so that the
+// result is not wrapped around into a negative integer.
+func applyIntCallback(x int64, negates bool, intCallback intCallback, floatCallback floatCallback) any {
+	if negates && x == math.MinInt64 {
+		return floatCallback(float64(x))
+	}
+	return intCallback(x)
+}
+
 // intSelf returns x. Implements intCallback.
 func intSelf(x int64) int64 { return x }
 
@@ -672,6 +684,8 @@ func (exec *Executor) executeNumericItemMethod(
 	found *valueList,
 ) (resultStatus, error) {
 	var num any
+	method, isMethod := node.(*ast.MethodNode)
+	negates := isMethod && method.Name() == ast.MethodAbs
 
 	switch val := value.(type) {
 	case []any:
@@ -683,12 +697,12 @@ func (exec *Executor) executeNumericItemMethod(
 			ErrVerbose, node,
 		))
 	case int64:
-		num = intCallback(val)
+		num = applyIntCallback(val, negates, intCallback, floatCallback)
 	case float64:
 		num = floatCallback(val)
 	case json.Number:
 		if integer, err := val.Int64(); err == nil {
-			num = intCallback(integer)
+			num = applyIntCallback(integer, negates, intCallback, floatCallback)
 		} else if float, err := val.Float64(); err == nil {
 			num = floatCallback(float)
 		} else {
